@@ -3,7 +3,7 @@
 
 usage: seeded_eval.py <ID> <scratch worktree> "<demo command>" [<other check ids>...]
 Steps: (scratch) clean checkout + demo only -> demo passes; + patch -> 40+10 tests pass and demo fails;
-       (/repo) git apply patch -> ./check <ID> quick (and the other ids) -> git checkout -- .
+       scratch clone of /repo + patch in a mount namespace (nsrun.sh) -> ./check <ID> quick (and the other ids)
 Writes /verif/seeded/<ID>/{patch.diff,demo.diff,README.md,meta.json}.
 """
 import json, os, shutil, subprocess, sys, time
@@ -40,18 +40,14 @@ def main():
         rc_bad, o = step("demo with the change", env_prefix + demo_cmd, wt)
         meta["demo_passes_without"] = rc_ok == 0
         meta["demo_fails_with"] = rc_bad != 0
-    # /repo: run the checks
-    rc, _ = sh("git -C /repo status --porcelain")
-    step("repo apply", "git -C /repo apply %s/patch.diff" % tmp_out, "/verif")
+    # run the checks against a scratch clone of /repo with the change applied, inside a private
+    # mount namespace (nsrun.sh): /repo itself is never modified
     results = {}
     for cid in [pid] + others:
         t0 = time.time()
-        rc, o = sh("./check %s quick" % cid, "/verif", timeout=3600)
+        rc, o = sh("/verif/nsrun.sh %s/patch.diff ./check %s quick" % (tmp_out, cid), "/verif", timeout=3600)
         lines = [l for l in o.splitlines() if l.startswith("VIOLATION") or l.startswith("MACHINERY") or l.startswith("  [")]
         results[cid] = {"rc": rc, "wall_s": round(time.time() - t0, 1), "lines": lines[:6]}
-    step("repo revert", "git -C /repo checkout -- . && git -C /repo status --porcelain", "/verif")
-    # our own replays of seeded runs are not evidence: remove
-    sh("git -C /verif checkout -- evidence 2>/dev/null; rm -rf /verif/replays", "/verif")
     meta["checks"] = results
     meta["detected_by"] = [c for c, r in results.items() if r["rc"] == 1]
     for f in ("patch.diff", "demo.diff", "README.md"):
